@@ -174,9 +174,10 @@ type (
 		Lo, Hi Expr // may be nil
 	}
 	EQuant struct {
-		Forall bool
-		Vars   []QVar
-		Body   Expr
+		Forall   bool
+		Vars     []QVar
+		Body     Expr
+		Triggers [][]Expr // alternatives of multi-patterns
 	}
 	EOld  struct{ X Expr }
 	ECond struct{ C, T, F Expr } // ite(c,t,f)
@@ -311,6 +312,20 @@ func (ps *parser) expr(minPrec int) Expr {
 				continue
 			}
 			break
+		}
+		for ps.isOp("{") {
+			ps.next()
+			var pat []Expr
+			for {
+				pat = append(pat, ps.expr(0))
+				if ps.isOp(",") {
+					ps.next()
+					continue
+				}
+				break
+			}
+			ps.expect("}")
+			q.Triggers = append(q.Triggers, pat)
 		}
 		ps.expect("::")
 		q.Body = ps.expr(0)
